@@ -186,6 +186,38 @@ func runC20(r *engine.Run) {
 		}
 	})
 
+	// durations over the whole range of time.Duration ("all durations"): powers of two and their
+	// neighbours with both signs, the ends of the range, and the durations whose UTC image lies around the
+	// last instant that fits a 64-bit Unix nanosecond count (2262-04-11T23:47:16.854775807Z)
+	var extreme []time.Duration
+	for k := uint(0); k <= 62; k++ {
+		for _, d := range []int64{1 << k, 1<<k - 1, 1<<k + 1} {
+			extreme = append(extreme, time.Duration(d), time.Duration(-d))
+		}
+	}
+	unixLimit := time.Unix(0, 1<<63-1).Sub(epoch) + offsetAt(time.Unix(0, 1<<63-1))
+	for j := int64(0); j <= 3; j++ {
+		extreme = append(extreme, time.Duration(1<<63-1-j), time.Duration(-1<<63+1+j), unixLimit+time.Duration(j), unixLimit-time.Duration(j),
+			unixLimit+time.Duration(j)*time.Second, unixLimit-time.Duration(j)*time.Second, unixLimit+time.Duration(j)*1000*time.Hour)
+	}
+	r.PartDims("gps/extreme-durations", []string{fmt.Sprintf("durations:%d (+-2^k, +-(2^k+-1), ends of the int64 range, around the Unix-nanosecond limit)", len(extreme))}, uint64(len(extreme)), func(c *engine.Case) {
+		d := extreme[c.Index]
+		c.Eval()
+		u := time.Time(gps.NewTimeFromTimeSinceGPSEpoch(d))
+		d2 := gps.Time(u).TimeSinceGPSEpoch()
+		for k, l := range leaps {
+			g := l.Add(-time.Second).Sub(epoch) + time.Duration(k)*time.Second
+			if d > g && d <= g+time.Second {
+				c.Outcome("gps/duration-inside-inserted-second(recorded)")
+				return
+			}
+		}
+		c.NonTrivial()
+		if d2 != d {
+			c.Fail("gps/gps-utc-gps-not-identity/extreme", fmt.Sprintf("%d ns (%s) since GPS epoch -> UTC %s -> %d ns (difference %s)", int64(d), d, u.Format(time.RFC3339Nano), int64(d2), d2-d), nil)
+		}
+	})
+
 	// --- airtime (complete product)
 	sfs := []int{5, 6, 7, 8, 9, 10, 11, 12}
 	bws := []int{125, 250, 500, 812, 1625}
